@@ -1404,7 +1404,8 @@ Proof.
               ((if neg then - digits_val ip 0 else digits_val ip 0) <=? max_int64)) eqn:E1.
     + inversion H; subst. cbn [num_range]. lia.
     + destruct (negb neg && (digits_val ip 0 <=? max_uint64)) eqn:E2; [|discriminate].
-      inversion H; subst. cbn [num_range]. lia.
+      inversion H; subst. cbn [num_range]. unfold min_int64, max_int64, max_uint64 in *.
+      destruct neg; cbn [negb andb] in E2; [discriminate|]. lia.
   - cbv zeta in H.
     match type of H with context [let '(_, _) := ?X in _] => destruct X as [fp r2] eqn:Efp end.
     assert (Hfp : Forall digitP fp).
@@ -2000,7 +2001,8 @@ Section ToJson.
     - destruct Hs as [_ Hv]. unfold min_int64, max_int64, max_uint64 in *.
       destruct v; try contradiction; cbn [canon json_ok]; cbn [flatten] in Ht;
         inversion Ht as [|? ? Ht1 _]; subst; unfold jtok_ok in Ht1; cbn [tv] in Ht1; auto; try lia.
-      destruct (Z.leb_spec 0 i); cbn [json_ok]; unfold min_int64, max_int64, max_uint64; lia.
+      + destruct (Z.leb_spec 0 i); cbn [json_ok]; unfold min_int64, max_int64, max_uint64; lia.
+      + unfold max_uint64; lia.
     - destruct Hs as (_ & _ & Hitems). apply fold_pair_Forall in Hitems.
       cbn [flatten] in Ht. inversion Ht as [|? ? _ Ht']; subst.
       apply Forall_app in Ht'. destruct Ht' as [Ht' _]. apply Forall_flat_map in Ht'.
